@@ -2006,7 +2006,7 @@ class Spatial(BallotGenerator):
 
         if voter_dist_kwargs is None:
             if voter_dist is np.random.uniform:
-                voter_dist_kwargs = {"low": 0.0, "high": 1.0, "size": 2.0}
+                voter_dist_kwargs = {"low": 0.0, "high": 1.0, "size": 2}
             else:
                 voter_dist_kwargs = {}
 
@@ -2019,7 +2019,7 @@ class Spatial(BallotGenerator):
 
         if candidate_dist_kwargs is None:
             if candidate_dist is np.random.uniform:
-                candidate_dist_kwargs = {"low": 0.0, "high": 1.0, "size": 2.0}
+                candidate_dist_kwargs = {"low": 0.0, "high": 1.0, "size": 2}
             else:
                 candidate_dist_kwargs = {}
 
@@ -2154,8 +2154,8 @@ class ClusteredSpatial(BallotGenerator):
             if self.voter_dist is np.random.normal:
                 voter_dist_kwargs = {
                     "loc": 0,
-                    "std": np.array(1.0),
-                    "size": np.array(2.0),
+                    "scale": np.array(1.0),
+                    "size": 2,
                 }
             else:
                 voter_dist_kwargs = {}
@@ -2173,7 +2173,7 @@ class ClusteredSpatial(BallotGenerator):
 
         if candidate_dist_kwargs is None:
             if self.candidate_dist is np.random.uniform:
-                candidate_dist_kwargs = {"low": 0.0, "high": 1.0, "size": 2.0}
+                candidate_dist_kwargs = {"low": 0.0, "high": 1.0, "size": 2}
             else:
                 candidate_dist_kwargs = {}
 
